@@ -335,6 +335,9 @@ type contactSpec struct {
 	CreatedOn  time.Time           `json:"created_on"`
 	LastSeenOn *time.Time          `json:"last_seen_on"`
 	Fields     map[string]fvalSpec `json:"fields"`
+	ID         int                 `json:"id"`
+	Status     string              `json:"status"`
+	Groups     []string            `json:"groups"` // names of the static groups the contact is in
 }
 
 type day struct{ Y, M, D int }
@@ -588,6 +591,15 @@ func genWorld(idx int, r *hx.Rand) *worldSpec {
 			}
 		}
 		c.Ticket = rc.Chance(1, 3)
+		// drawn from a fork so that the rest of the contact is the one earlier runs generated
+		rg := rc.Fork("membership")
+		c.ID = 1000 + rg.Intn(9000)
+		c.Status = hx.Pick(rg, []string{"active", "active", "active", "blocked", "stopped", "archived"})
+		for _, g := range groupNames {
+			if rg.Chance(1, 2) {
+				c.Groups = append(c.Groups, g)
+			}
+		}
 		c.CreatedOn = boundaryInstant(tz, hx.Pick(rc, w.Days), rc)
 		if rc.Chance(2, 3) {
 			t := boundaryInstant(tz, hx.Pick(rc, w.Days), rc)
@@ -659,7 +671,11 @@ func buildWorld(spec *worldSpec) (*world, error) {
 	for i, f := range spec.Fields {
 		fs = append(fs, fj{UUID: fmt.Sprintf("f0000000-0000-4000-8000-%012d", i), Key: f.Key, Name: strings.ToUpper(f.Key[:1]) + f.Key[1:], Type: f.Type})
 	}
-	aj, _ := json.Marshal(map[string]any{"fields": fs})
+	var gs []map[string]any
+	for i, g := range groupNames {
+		gs = append(gs, map[string]any{"uuid": fmt.Sprintf("90000000-0000-4000-8000-%012d", i), "name": g})
+	}
+	aj, _ := json.Marshal(map[string]any{"fields": fs, "groups": gs})
 	src, err := static.NewSource(aj)
 	if err != nil {
 		return nil, err
@@ -699,10 +715,22 @@ func buildWorld(spec *worldSpec) (*world, error) {
 		}
 		cj := map[string]any{
 			"uuid":       fmt.Sprintf("c0000000-0000-4000-8000-%012d", i),
-			"status":     "active",
+			"id":         cs.ID,
+			"status":     cs.Status,
 			"created_on": cs.CreatedOn.Format(time.RFC3339Nano),
 			"urns":       cs.URNs,
 			"fields":     fj,
+		}
+		if len(cs.Groups) > 0 {
+			var grefs []map[string]any
+			for gi, g := range groupNames {
+				for _, x := range cs.Groups {
+					if x == g {
+						grefs = append(grefs, map[string]any{"uuid": fmt.Sprintf("90000000-0000-4000-8000-%012d", gi), "name": g})
+					}
+				}
+			}
+			cj["groups"] = grefs
 		}
 		if cs.Name != "" {
 			cj["name"] = cs.Name
@@ -890,7 +918,12 @@ func (w *world) contactCoq(name string, c *flows.Contact) string {
 		fs = append(fs, fmt.Sprintf("(%s, (%s, {| fv_text := %s; fv_num := %s; fv_dt := %s; fv_state := %s; fv_district := %s; fv_ward := %s |}))",
 			hx.Str(f.Key()), ftypeCoq(f.Type()), hx.Str(txt), num, dt, hx.Str(string(fv.State)), hx.Str(string(fv.District)), hx.Str(string(fv.Ward))))
 	}
-	fmt.Fprintf(&sb, " c_fields := [%s] |}.\n", strings.Join(fs, ";\n   "))
+	var gnames []string
+	for _, g := range c.Groups().All() {
+		gnames = append(gnames, g.Name())
+		w.noteRunes(g.Name())
+	}
+	fmt.Fprintf(&sb, " c_fields := [%s];\n c_groups := %s |}.\n", strings.Join(fs, ";\n   "), hx.List(gnames, hx.Str))
 	return sb.String()
 }
 
@@ -938,6 +971,10 @@ func presence(cs *contactSpec, p prop) (present bool, ok bool) {
 			return cs.LastSeenOn != nil, true
 		case "uuid", "created_on", "tickets":
 			return true, true
+		case "group":
+			// the contact is in a group or it is not (id and status cannot be asked about with an empty value: the
+			// validator refuses; flow and history are not things a contact object has)
+			return len(cs.Groups) > 0, true
 		}
 		return false, false
 	case "urn":
@@ -1450,7 +1487,11 @@ func (w *world) audit(res *hx.Result, spec *worldSpec, ci int, cs *contactSpec, 
 				if eq == "panic" || ne == "panic" {
 					res.Fail(fmt.Sprintf("panic:eval:empty-value-on-%s-%s", p.PT, p.VT), fi(p, "=", "", ""), "existence check panicked")
 				} else if (eq == "true") != !present || (ne == "true") != present {
-					res.Fail(fmt.Sprintf("empty-value:%s:%s", p.PT, p.VT), fi(p, "=", "", fmt.Sprintf("present=%v", present)),
+					cls := fmt.Sprintf("empty-value:%s:%s", p.PT, p.VT)
+					if p.PT == "attr" {
+						cls = "empty-value:attr:" + p.Key
+					}
+					res.Fail(cls, fi(p, "=", "", fmt.Sprintf("present=%v", present)),
 						fmt.Sprintf("property present=%v but `= \"\"` is %s and `!= \"\"` is %s", present, eq, ne))
 				}
 			}
@@ -1580,7 +1621,17 @@ func (w *world) audit(res *hx.Result, spec *worldSpec, ci int, cs *contactSpec, 
 				if lt != (cmp < 0) || eq != (cmp == 0) || gt != (cmp > 0) {
 					class := "date-comparison:calendar-day"
 					if transitionDay(w.tz, *v.d) {
-						class = "date-comparison:dst-transition-day"
+						// the listed finding is gocommon's DayToUTCRange applied to the QUERIED day: the range
+						// [time.Date(y, m, d, 0, 0, 0, 0, zone), + 24h) — 24 hours whatever the day's length, starting at Go's reading
+						// of a local midnight that may not exist.  A result that this range does not explain is another defect
+						// (e.g. the whole comparison made for the previous day).
+						first := time.Date(v.d.Y, time.Month(v.d.M), v.d.D, 0, 0, 0, 0, w.tz)
+						end := first.Add(24 * time.Hour)
+						if lt == t.Before(first) && eq == (!t.Before(first) && t.Before(end)) && gt == !t.Before(end) {
+							class = "date-comparison:dst-transition-day"
+						} else {
+							class = "date-comparison:day-start-not-on-queried-day"
+						}
 					} else if v.foreign {
 						class = "date-comparison:value-with-foreign-offset"
 					}
